@@ -8,10 +8,10 @@ import math
 import traceback
 
 import numpy as np
+import pandas as pd
 import xarray as xr
 from typhon.constants import earth_radius      # metres
 
-D_KM = 5.0                  # max_distance of every case
 EPOCH = np.datetime64("2020-02-29T23:59:50", "ns")   # second 0 of the lattice
 EPOCH_PY = dt.datetime(2020, 2, 29, 23, 59, 50)
 SEC = np.timedelta64(1, "s")
@@ -29,6 +29,10 @@ POS = {
     "far": (-45.0, 90.0),
     "xlat": (NAN, 0.0),         # ignored points
     "xlon": (10.0, NAN),
+    # 18.0 deg from c0: chord 1995.5 km, arc 2003.7 km (a 2000 km threshold
+    # tells the straight line from the great circle); 18.1 deg: outside both
+    "w0": (28.0, 0.0),
+    "w1": (28.1, 0.0),
 }
 # point alphabet: name -> (position, second); max_interval is 10 s, so the
 # lattice has |dt| = 0, 2, 4, 6 (inside), 10 (= max_interval: excluded), 12
@@ -41,17 +45,26 @@ POINTS = {
     # times between whole seconds: |dt| = 9.25 to A (inside whichever point
     # is the earlier one), 10.25 from O to D (inside for 10.5 s only)
     "N": ("c1", 9.25), "O": ("c1", -0.25),
+    # for max_distance 2000 km (part "wide")
+    "P": ("w0", 6), "Q": ("w1", 6),
+    # for max_interval 36 h / 48 h (part "long"): 12 h, 36 h and 48 h after A
+    "R": ("c1", 43200), "S": ("c1", 129600), "T": ("c0", 172800),
 }
-# scan lines for the gridded variant: (second, position, position)
+# scan lines for the gridded variants: (second, positions); kinds G and GT
+# take the first two positions of a line, kind H all three
 LINES = {
-    "a": (0, "c0", "c1"), "b": (6, "c1", "c2"), "c": (12, "c2", "xlat"),
-    "d": (10, "c0", "far"), "e": (6, "d0", "d1"), "f": (0, "n0", "n1"),
+    "a": (0, "c0", "c1", "c2"), "b": (6, "c1", "c2", "c0"),
+    "c": (12, "c2", "xlat", "c1"), "d": (10, "c0", "far", "xlon"),
+    "e": (6, "d0", "d1", "far"), "f": (0, "n0", "n1", "c0"),
 }
+GRID_KINDS = {"G": 2, "GT": 2, "H": 3}      # kind -> scan positions
 # unique, non-trivial, unsorted labels of the point dimension / of the two
 # grid dimensions
 LABELS = (7, 3, 11, 5)
-LINE_LABELS = (8, 2)
-POS_LABELS = (9, 4)
+LINE_LABELS = (8, 2, 5)
+POS_LABELS = (9, 4, 6)
+CHANNELS = (0, 1)
+NAMES = ("MHS", "AVHRR")    # group names of the "named" deviation
 
 # (max_distance argument, max_interval argument, metres, seconds)
 THRESHOLDS = {
@@ -60,14 +73,28 @@ THRESHOLDS = {
     "m+timedelta": ("5000 m", dt.timedelta(seconds=10), 5000, 10),
     "half-second": (5.0, 10.5, 5000, 10.5),
     "half-second-str": ("5 kilometers", "10500 ms", 5000, 10.5),
+    "wide-num": (2000, 10, 2e6, 10),
+    "wide-str": ("2000 km", "10 s", 2e6, 10),
+    "wide-m": ("2e6 m", dt.timedelta(seconds=10), 2e6, 10),
+    "2days-num": (5, 172800, 5000, 172800),
+    "2days-str": ("5 km", "2 days", 5000, 172800),
+    "48h": (5, "48 h", 5000, 172800),
+    "2days-timedelta": (5, dt.timedelta(days=2), 5000, 172800),
+    "36h": (5, "36 hours", 5000, 129600),
+    "1.5days": (5, "1.5 days", 5000, 129600),
 }
 # another spelling of the same thresholds (used to tell a defect in reading
 # the thresholds from one in the search)
 SAME_THRESHOLDS = {"str": "num", "m+timedelta": "num",
                    "half-second": "half-second-str",
-                   "half-second-str": "half-second"}
+                   "half-second-str": "half-second",
+                   "wide-str": "wide-num", "wide-m": "wide-num",
+                   "2days-str": "2days-num", "48h": "2days-num",
+                   "2days-timedelta": "2days-num", "1.5days": "36h",
+                   "36h": "1.5days"}
 # start / end in lattice seconds (None = argument not given), passed as
-# datetime objects or as "YYYY-MM-DD hh:mm:ss" strings
+# datetime objects, pandas.Timestamp objects (a datetime subclass), as
+# "YYYY-MM-DD hh:mm:ss" strings or as "YYYY-MM-DD" (second 10 is midnight)
 WINDOWS = {
     "none": (None, None, "datetime"),
     "between": (3, 11, "datetime"),          # cuts between lattice seconds
@@ -75,13 +102,20 @@ WINDOWS = {
     "nothing": (2000, 3000, "datetime"),
     "start-only": (6, None, "string"),
     "end-only": (None, 10, "datetime"),
+    "date-start": (10, None, "date"),
+    "date-end": (None, 10, "date"),
+    "timestamp": (3, 11, "timestamp"),
 }
+# unit1 / unit2: resolution of the time variable of the primary / secondary;
+# named: the datasets are passed as (name, dataset) tuples
 DEFAULT = dict(thr="num", window="none", swap=False, leaf=40, mf=10, bin=1,
-               shuffle="rev")
+               shuffle="rev", unit1="ns", unit2="ns", named=False)
 ALTERNATIVES = dict(
     thr=["str", "m+timedelta", "half-second", "half-second-str"],
-    window=["between", "on-points", "nothing", "start-only", "end-only"],
-    swap=[True], leaf=[1], mf=[1], bin=[2, 0.5])
+    window=["between", "on-points", "nothing", "start-only", "end-only",
+            "date-start", "date-end", "timestamp"],
+    swap=[True], leaf=[1], mf=[1], bin=[2, 0.5],
+    unit1=["us", "ms", "s"], unit2=["us", "ms", "s"], named=[True])
 
 
 def shuffle_family(n):
@@ -123,7 +157,9 @@ def install_seam():
 # --------------------------------------------------------------------------
 # datasets: descriptor -> (xarray.Dataset, [(id, second, lat, lon)])
 # descriptors: ("L", "AB") labelled dimension, ("T", "AB") time is the
-# dimension, ("G", "ab") 2 x 2 scan-line x scan-position grid,
+# dimension, ("G", "ab") scan lines x 2 scan positions with the time on the
+# labelled scan-line dimension, ("GT", "ab") the same with the time as the
+# scan-line dimension itself, ("H", "ab") scan lines x 3 scan positions,
 # ("X", ((id, second, lat, lon), ...)) explicit points on a labelled dimension
 # --------------------------------------------------------------------------
 
@@ -131,56 +167,84 @@ def points_of(desc, id0):
     kind, spec = desc
     if kind == "X":
         return [tuple(p) for p in spec]
-    if kind == "G":
-        out = []
-        for li, name in enumerate(spec):
-            sec, pa, pb = LINES[name]
-            for k, pos in enumerate((pa, pb)):
-                out.append((id0 + 2 * li + k, sec) + POS[pos])
-        return out
+    if kind in GRID_KINDS:
+        width = GRID_KINDS[kind]
+        return [(id0 + width * li + k, LINES[name][0]) + POS[pos]
+                for li, name in enumerate(spec)
+                for k, pos in enumerate(LINES[name][1:1 + width])]
     return [(id0 + i, POINTS[n][1]) + POS[POINTS[n][0]]
             for i, n in enumerate(spec)]
 
 
-def admissible(desc):
-    """time can only be the dimension if the seconds are unique."""
+def admissible(desc, unit="ns"):
+    """time can only be a dimension if the seconds are unique, and only be
+    stored in whole seconds if it has no fraction."""
     kind, spec = desc
-    if kind != "T":
-        return True
-    secs = [POINTS[n][1] for n in spec]
-    return len(set(secs)) == len(secs)
+    secs = [p[1] for p in points_of(desc, 0)]
+    if unit == "s" and any(s != int(s) for s in secs):
+        return False
+    if kind == "T":
+        return len(set(secs)) == len(secs)
+    if kind == "GT":
+        return len(set(LINES[n][0] for n in spec)) == len(spec)
+    return True
 
 
-def times_of(secs):
-    return np.array([EPOCH + np.timedelta64(int(round(s * 1e9)), "ns")
-                     for s in secs], dtype="datetime64[ns]")
+def times_of(secs, unit="ns"):
+    ns = np.array([EPOCH + np.timedelta64(int(round(s * 1e9)), "ns")
+                   for s in secs], dtype="datetime64[ns]")
+    out = ns.astype("datetime64[%s]" % unit)
+    assert (out == ns).all(), "time lost in unit %s" % unit
+    return out
 
 
-def build(desc, id0, dim):
+def carried_extras(pid, k):
+    """values of the variables that do not live on the whole grid, for the
+    point with this id at scan position k: ang(scnpos) and
+    bt(line, scnpos, channel)"""
+    return 0.5 + k, tuple(10.0 * pid + c for c in CHANNELS)
+
+
+def build(desc, id0, dim, unit="ns"):
+    """-> (dataset, points, {id: (ang, bt)} for the gridded kinds else {})"""
     kind, spec = desc
     pts = points_of(desc, id0)
     ids = np.array([p[0] for p in pts])
     lat = np.array([p[2] for p in pts], dtype=float)
     lon = np.array([p[3] for p in pts], dtype=float)
-    if kind == "G":
-        n = len(spec)
+    extras = {}
+    if kind in GRID_KINDS:
+        n, width = len(spec), GRID_KINDS[kind]
+        line = "time" if kind == "GT" else "scnline"
+        times = times_of([LINES[x][0] for x in spec], unit)
+        extras = {p[0]: carried_extras(p[0], i % width)
+                  for i, p in enumerate(pts)}
+        grid = (line, "scnpos")
         ds = xr.Dataset(
-            {"time": ("scnline", times_of([LINES[x][0] for x in spec])),
-             "lat": (("scnline", "scnpos"), lat.reshape(n, 2)),
-             "lon": (("scnline", "scnpos"), lon.reshape(n, 2)),
-             "id": (("scnline", "scnpos"), ids.reshape(n, 2))},
-            coords={"scnline": list(LINE_LABELS[:n]),
-                    "scnpos": list(POS_LABELS)})
+            {"lat": (grid, lat.reshape(n, width)),
+             "lon": (grid, lon.reshape(n, width)),
+             "id": (grid, ids.reshape(n, width)),
+             "ang": ("scnpos", [carried_extras(0, k)[0]
+                                for k in range(width)]),
+             "bt": (grid + ("channel",), np.array(
+                 [extras[i][1] for i in ids]).reshape(n, width, -1))},
+            coords={"scnpos": list(POS_LABELS[:width])})
+        if kind == "GT":
+            ds = ds.assign_coords(time=times)
+        else:
+            ds["time"] = "scnline", times
+            ds = ds.assign_coords(scnline=list(LINE_LABELS[:n]))
     elif kind == "T":
         ds = xr.Dataset({"lat": ("time", lat), "lon": ("time", lon),
                          "id": ("time", ids)},
-                        coords={"time": times_of([p[1] for p in pts])})
+                        coords={"time": times_of([p[1] for p in pts], unit)})
     else:
         labels = [LABELS[i % 4] + 20 * (i // 4) for i in range(len(pts))]
-        ds = xr.Dataset({"time": (dim, times_of([p[1] for p in pts])),
+        ds = xr.Dataset({"time": (dim, times_of([p[1] for p in pts], unit)),
                          "lat": (dim, lat), "lon": (dim, lon),
                          "id": (dim, ids)}, coords={dim: labels})
-    return ds, pts
+    assert ds["time"].dtype == "datetime64[%s]" % unit, ds["time"].dtype
+    return ds, pts, extras
 
 
 # --------------------------------------------------------------------------
@@ -231,7 +295,16 @@ def when(sec, how):
     if sec is None:
         return None
     t = EPOCH_PY + dt.timedelta(seconds=sec)
+    if how == "date":
+        assert t.time() == dt.time(0), "not a date: %r" % (t,)
+        return t.strftime("%Y-%m-%d")
+    if how == "timestamp":
+        return pd.Timestamp(t)
     return t if how == "datetime" else t.strftime("%Y-%m-%d %H:%M:%S")
+
+
+def group_names(cfg):
+    return NAMES if cfg["named"] else ("primary", "secondary")
 
 
 def call(collocator, ds1, ds2, cfg):
@@ -252,10 +325,14 @@ def call(collocator, ds1, ds2, cfg):
         kwargs["magnitude_factor"] = cfg["mf"]
     if cfg["bin"] != DEFAULT["bin"]:
         kwargs["bin_factor"] = cfg["bin"]
+    if cfg["named"]:
+        ds1, ds2 = (NAMES[0], ds1), (NAMES[1], ds2)
     SEAM.member = cfg["shuffle"]
     try:
         out = collocator.collocate(ds1, ds2, **kwargs)
     except Exception as exc:
+        if isinstance(exc, TimeoutError) and "shard exceeded" in str(exc):
+            raise               # the driver's watchdog, not typhon
         # the site is the method collocate() called (one key per root cause,
         # wherever below it the exception surfaced)
         inside = [frame.name
@@ -266,9 +343,12 @@ def call(collocator, ds1, ds2, cfg):
     return ("none",) if out is None else ("data", out)
 
 
-def judge(obs, pts1, pts2, exp):
+def judge(obs, pts1, pts2, exp, names=("primary", "secondary"),
+          extras=({}, {})):
     """None or (key, expected, observed, msg). obs as returned by call(),
-    exp as returned by expected() for (pts1, pts2)."""
+    exp as returned by expected() for (pts1, pts2), names = the groups the
+    result must consist of, extras = what build() returned for either side
+    ({id: (ang, bt)} of the gridded kinds)."""
     exp_list = sorted(exp)
     if obs[0] == "exception":
         return ("exception/%s/%s" % (obs[2], obs[1]), exp_list, obs[3], "")
@@ -279,8 +359,7 @@ def judge(obs, pts1, pts2, exp):
     out = obs[1]
     try:
         pairs = np.asarray(out["Collocations/pairs"].values)
-        ids = [np.asarray(out["primary/id"].values),
-               np.asarray(out["secondary/id"].values)]
+        ids = [np.asarray(out[name + "/id"].values) for name in names]
         interval = np.asarray(out["Collocations/interval"].values) / SEC
         distance = np.asarray(out["Collocations/distance"].values,
                               dtype=float)
@@ -288,9 +367,18 @@ def judge(obs, pts1, pts2, exp):
                     for i, t, la, lo in zip(
                         ids[g], out[name + "/time"].values,
                         out[name + "/lat"].values, out[name + "/lon"].values)]
-                   for g, name in enumerate(("primary", "secondary"))]
+                   for g, name in enumerate(names)]
     except Exception as exc:
         return ("result/unreadable", exp_list, repr(exc)[:200], "")
+    try:
+        # the order of the dimensions of bt is not the property's business
+        more = [[(float(a), tuple(map(float, b))) for a, b in zip(
+                    out[name + "/ang"].values, out[name + "/bt"].transpose(
+                        out[name + "/id"].dims[0], ...).values)]
+                if extras[g] else None for g, name in enumerate(names)]
+    except Exception as exc:
+        return ("result/carried-grid-variable-unreadable", exp_list,
+                repr(exc)[:200], "ang(scnpos) / bt(line, scnpos, channel)")
     if pairs.ndim != 2 or pairs.shape[0] != 2 or not (
             pairs.shape[1] == interval.shape[0] == distance.shape[0]):
         return ("result/shapes-inconsistent", exp_list,
@@ -320,6 +408,12 @@ def judge(obs, pts1, pts2, exp):
                 return ("result/carried-data-altered", originals[g].get(c[0]),
                         c, "time/lat/lon stored with an id are not the "
                         "original point's")
+        if extras[g]:
+            for c, m in zip(carried[g], more[g]):
+                if extras[g][c[0]] != m:
+                    return ("result/carried-grid-variable-altered",
+                            extras[g][c[0]], m, "ang(scnpos) / bt(line, "
+                            "scnpos, channel) stored with id %d" % c[0])
     for k, pair in enumerate(got):
         sec, km = exp[pair]
         # stored in whole seconds: anything a full second or more from
@@ -333,14 +427,15 @@ def judge(obs, pts1, pts2, exp):
     return None
 
 
-def intervals_by_pair(obs, transposed=False):
-    """{(primary id, secondary id): stored interval in s} of a result."""
+def intervals_by_pair(obs, names, transposed=False):
+    """{(primary id, secondary id): stored interval in s} of a result with
+    these group names."""
     if obs[0] != "data":
         return {}
     out = obs[1]
     pairs = np.asarray(out["Collocations/pairs"].values)
-    ids1 = np.asarray(out["primary/id"].values)
-    ids2 = np.asarray(out["secondary/id"].values)
+    ids1 = np.asarray(out[names[0] + "/id"].values)
+    ids2 = np.asarray(out[names[1] + "/id"].values)
     sec = np.asarray(out["Collocations/interval"].values) / SEC
     got = {}
     for i, j, v in zip(pairs[0], pairs[1], sec.tolist()):
